@@ -40,6 +40,14 @@ VARIANTS = [
       lambda nd: isinstance(nd, ast.For) and "auto_transform" in ast.unparse(nd),
       lambda nd: stmt("gb._add_model_log_lik_node()") + [nd],
       note="model nodes added before the auto-transforms", expect_rule="C02.R4"),
+    V("c02_copy_drops_lik", "M", M, "GraphBuilder.copy",
+      *replace_stmt("gb.log_lik_node = self.log_lik_node", None),
+      note="the builder copy used by build_model forgets the user's log_lik node",
+      expect_rule="C02.R3"),
+    V("c02_copy_swaps", "M", M, "GraphBuilder.copy",
+      *replace_stmt("gb.log_prob_node = self.log_prob_node",
+                    "gb.log_prob_node = self.log_prior_node"),
+      note="user log_prior node used as log_prob", expect_rule="C02.R3"),
     # ---- twins
     V("c02_t_list", "T", M, f"{G}._add_model_log_lik_node",
       *replace_stmt("inputs = (v.dist_node for v in _vars if v.has_dist and v.observed)",
